@@ -20,7 +20,8 @@ def plan(tier):
     if tier == 'quick':
         return [S('solo/hurry/login+drone/t30', 'login+drone', 30, [1], alpha.scen_hurry([1]), flags=FLAGS),
                 S('solo/hurry/drone/t0', 'drone', 0, [1], alpha.scen_hurry([1]), flags=FLAGS),
-                S('pair/tiny/ids-0-and-INT_MAX/t30', 'login+drone', 30, [0, 2147483647], alpha.tiny([0, 2147483647]), flags=FLAGS)]    # boundary ids incl. the legal id 0
+                S('pair/tiny/ids-0-and-INT_MAX/t30', 'login+drone', 30, [0, 2147483647], alpha.tiny([0, 2147483647]), flags=FLAGS),    # boundary ids incl. the legal id 0
+                pcommon.reload_search(tier, 'timeout')]     # the timeout setting itself reloaded while a client waits
     p = []
     for g in ('login+drone', 'drone', 'ipr+comb', 'all4', 'none'):
         for t in (30, 0):
@@ -29,6 +30,7 @@ def plan(tier):
     p.append(S('pair/tiny/login+drone/t30', 'login+drone', 30, [1, 2], alpha.tiny([1, 2]), flags=FLAGS))
     p.append(S('pair/tiny/extreme-ids/t30', 'login+drone', 30, [2147483647, -2147483648], alpha.tiny([2147483647, -2147483648]), flags=FLAGS))
     p.append(S('triple/tiny/login+drone/t30', 'login+drone', 30, [1, 2, 3], alpha.tiny([1, 2, 3]), flags=FLAGS, maxdepth=7))
+    p.append(pcommon.reload_search(tier, 'timeout'))
     return p
 
 STATE = {'eof_probes': 0, 'lsan_probes': 0, 'e3_timer_runs': 0}
@@ -49,7 +51,7 @@ def post(tier):
         # LeakSanitizer on a sample of states (all at depth <= 4, every 10th beyond; thorough: every 3rd)
         step = 10 if tier == 'quick' else 3
         sids = [n for n, st in enumerate(s.states) if st.depth <= 4 or n % step == 0]
-        if run.out_of_time(60):
+        if run.out_of_time(60) or s.reload_paths:      # (the reload targets of a search are gone once it has ended)
             return
         lock = threading.Lock()
         servers = []
